@@ -2,8 +2,154 @@
 
 package main
 
-import "github.com/pentops/j5/internal/verifh/vh"
+import (
+	"fmt"
+	"strings"
 
+	"github.com/pentops/j5/internal/verifh/vh"
+)
+
+// description texts: what ends up in leading comments and in (j5.ext.v1.*).description strings
+var descPool = []string{
+	"Plain description", "with \"double quotes\" inside", "back\\slash and 'single'", "ünïcode — 日本語 😀",
+	"ends a block comment */ and starts /* one", "// looks like a comment", "trailing spaces   ", "{braces} [brackets] ;semi",
+	"a very long description " + strings.Repeat("lorem ipsum ", 12), "x", "tab\there", "percent %d %s",
+}
+
+func desc(h *vh.H, indent string) string {
+	if h.Chance(1, 4) {
+		return ""
+	}
+	n := 1
+	if h.Chance(1, 3) {
+		n = 2 + h.Rng.IntN(2)
+	}
+	var sb strings.Builder
+	for i := 0; i < n; i++ {
+		fmt.Fprintf(&sb, "%s| %s\n", indent, vh.Pick(h, descPool))
+	}
+	return sb.String()
+}
+
+func inlineDesc(h *vh.H) string {
+	if h.Chance(1, 2) {
+		return ""
+	}
+	return " | " + vh.Pick(h, descPool)
+}
+
+var tmplFieldTypes = []string{
+	"string", "bool", "bytes", "date", "decimal", "timestamp", "any", "integer:INT32", "integer:INT64", "integer:UINT32", "integer:UINT64",
+	"float:FLOAT32", "float:FLOAT64", "key", "key:uuid", "key:id62", "array:string", "map:string", "array:integer:INT32",
+	"object:Other", "array:object:Other", "oneof:Choice", "enum:Status", "array:enum:Status", "map:enum:Status",
+}
+
+var tmplFieldNames = []string{"foo_bar", "fooBar", "name", "item_id", "a_b_c", "x", "value_2", "is_ok", "HTTPCode", "created_at", "tag_list", "userID", "n1", "snake_case_name", "key", "kind"}
+
+// genTemplateJ5s: one package with objects, a oneof, enums, an entity, a service and a topic, a
+// description on (almost) every element, snake_case and camelCase field names.
 func genTemplateJ5s(h *vh.H) map[string]string {
-	return map[string]string{"foo/v1/a.j5s": "package foo.v1\n\nobject Foo {\n  | Foo desc\n  field foo_bar string\n}\n"}
+	pkg := vh.Pick(h, []string{"foo.v1", "tmpl.v1", "a.b.v1", "gen.foo.v2"})
+	var sb strings.Builder
+	fmt.Fprintf(&sb, "package %s\n\n", pkg)
+
+	fields := func(indent string, n int, kw string) {
+		used := map[string]bool{}
+		for i := 0; i < n; i++ {
+			name := vh.Pick(h, tmplFieldNames)
+			lname := strings.ToLower(strings.ReplaceAll(name, "_", ""))
+			if used[lname] {
+				continue
+			}
+			used[lname] = true
+			typ := vh.Pick(h, tmplFieldTypes)
+			if kw == "option" && (strings.HasPrefix(typ, "array") || strings.HasPrefix(typ, "map")) {
+				typ = "object:Other"
+			}
+			req := ""
+			if kw == "field" && h.Chance(1, 4) {
+				req = vh.Pick(h, []string{"! ", "? "})
+			}
+			if kw == "option" {
+				typ = vh.Pick(h, []string{"object:Other", "object:Thing"})
+			}
+			if h.Chance(1, 2) {
+				fmt.Fprintf(&sb, "%s%s %s %s%s%s\n", indent, kw, name, req, typ, inlineDesc(h))
+			} else {
+				fmt.Fprintf(&sb, "%s%s %s %s%s {\n%s%s}\n", indent, kw, name, req, typ, desc(h, indent+"  "), indent)
+			}
+		}
+	}
+
+	fmt.Fprintf(&sb, "object Other {\n%s  field other_id string\n}\n\n", desc(h, "  "))
+	fmt.Fprintf(&sb, "object Thing {\n%s", desc(h, "  "))
+	fields("  ", 2+h.Rng.IntN(8), "field")
+	if h.Chance(1, 2) {
+		fmt.Fprintf(&sb, "\n  object Nested {\n%s    field deep_field string%s\n  }\n  field nested object {\n    ref.schema = \"Thing.Nested\"\n  }\n", desc(h, "    "), inlineDesc(h))
+	}
+	sb.WriteString("}\n\n")
+
+	fmt.Fprintf(&sb, "oneof Choice {\n%s", desc(h, "  "))
+	fields("  ", 1+h.Rng.IntN(3), "option")
+	sb.WriteString("}\n\n")
+
+	fmt.Fprintf(&sb, "enum Status {\n%s", desc(h, "  "))
+	for _, o := range []string{"ACTIVE", "INACTIVE", "ON_HOLD"} {
+		fmt.Fprintf(&sb, "  option %s%s\n", o, inlineDesc(h))
+	}
+	sb.WriteString("}\n\n")
+
+	if h.Chance(2, 3) {
+		fmt.Fprintf(&sb, "entity Acct {\n%s", desc(h, "  "))
+		sb.WriteString("  key acct_id key:id62 {\n    primary = true\n  }\n")
+		if h.Chance(1, 2) {
+			sb.WriteString("  key tenant_id key:id62 {\n    primary = false\n    tenant = \"tenant\"\n  }\n")
+		}
+		fmt.Fprintf(&sb, "  data display_name string%s\n", inlineDesc(h))
+		if h.Chance(1, 2) {
+			sb.WriteString("  data thing_ref object:Thing\n")
+		}
+		fmt.Fprintf(&sb, "  status ACTIVE%s\n  status CLOSED%s\n", inlineDesc(h), inlineDesc(h))
+		fmt.Fprintf(&sb, "  event Create {\n%s    field display_name string\n  }\n", desc(h, "    "))
+		fmt.Fprintf(&sb, "  event Close {\n  }\n")
+		if h.Chance(1, 2) {
+			sb.WriteString("  summary {\n    field display_name string\n  }\n")
+		}
+		sb.WriteString("}\n\n")
+	}
+
+	if h.Chance(2, 3) {
+		fmt.Fprintf(&sb, "service Thing {\n  basePath = \"/thing/v1\"\n")
+		for i, m := range []string{"GetThing", "ListThings", "UpdateThing"} {
+			if i > 0 && h.Chance(1, 2) {
+				continue
+			}
+			verb := vh.Pick(h, []string{"GET", "POST", "PUT", "DELETE", "PATCH"})
+			fmt.Fprintf(&sb, "  method %s {\n%s    httpMethod = \"%s\"\n    httpPath = \"/things/:thing_id/%s\"\n    request {\n      field thing_id string\n", m, desc(h, "    "), verb, strings.ToLower(m))
+			if verb != "GET" && verb != "DELETE" {
+				fields("      ", h.Rng.IntN(3), "field")
+			}
+			sb.WriteString("    }\n    response {\n")
+			fields("      ", 1+h.Rng.IntN(3), "field")
+			sb.WriteString("    }\n  }\n")
+		}
+		sb.WriteString("}\n\n")
+	}
+
+	if h.Chance(1, 2) {
+		kind := vh.Pick(h, []string{"publish", "upsert"})
+		fmt.Fprintf(&sb, "topic Notes %s {\n", kind)
+		if kind == "publish" {
+			fmt.Fprintf(&sb, "  message Added {\n%s", desc(h, "    "))
+			fields("    ", 1+h.Rng.IntN(3), "field")
+			sb.WriteString("  }\n")
+		} else {
+			sb.WriteString("  message {\n")
+			fields("    ", 1+h.Rng.IntN(3), "field")
+			sb.WriteString("  }\n")
+		}
+		sb.WriteString("}\n")
+	}
+	path := strings.ReplaceAll(pkg, ".", "/") + "/tmpl.j5s"
+	return map[string]string{path: sb.String()}
 }
